@@ -45,15 +45,15 @@ def run(rep, tier, replay):
                     ("cfile", None, {"VERIF_DELAY": "read:0=2000"})]
         for mode, shim, env in variants:
             c = sched.Case("%s|-cdf %s%s %s" % (name, mode, " shim" if shim else "", env), ["-c", "-d", "-f"], data, env, expect_out=data,
-                           kind="expand", mode=mode, shim=shim, timeout=60)
+                           kind="expand", mode=mode, shim=shim, timeout=25)
             cases.append(c)
     # inputs that begin with a stream header: exactly as plain decompression
     good = bz2.compress(b"real bzip2 data\n" * 100)
     hdr = [("valid", good), ("truncated", good[:-7]), ("damaged", good[:20] + bytes([good[20] ^ 0x40]) + good[21:]), ("header_only", b"BZh9")]
     pairs = []
     for name, data in hdr:
-        a = sched.Case("%s|-cd" % name, ["-c", "-d", "-n", "2"], data, {}, kind="expand", timeout=60)
-        b = sched.Case("%s|-cdf" % name, ["-c", "-d", "-f", "-n", "2"], data, {}, kind="expand", timeout=60)
+        a = sched.Case("%s|-cd" % name, ["-c", "-d", "-n", "2"], data, {}, kind="expand", timeout=25)
+        b = sched.Case("%s|-cdf" % name, ["-c", "-d", "-f", "-n", "2"], data, {}, kind="expand", timeout=25)
         cases += [a, b]
         pairs.append((a, b))
     runs = sched.run_cases(exe, cases, par=8)
